@@ -359,6 +359,12 @@ pub fn run(o: &DetectOpts) -> serde_json::Value {
                 found.extend(check_c07(&c.bytes, &c.settings, ms));
                 found.extend(check_c08(ms));
                 found.extend(check_c10(&c.bytes, &c.settings, ms));
+                if (focus == "C19" || !same) && c.bytes.len() <= 6000 {
+                    if let Some(best) = ms.get_best() {
+                        let e = best.encoding().to_string();
+                        found.extend(check_c19_detect(&c.bytes, &c.settings, &e));
+                    }
+                }
                 if focus == "C13" || !same || idx % 5 == 0 {
                     let alt = (rng.range(1, 9), c.bytes.len() / 2 + rng.below(c.bytes.len() + 2));
                     found.extend(check_c13_window(&c.bytes, &c.settings, &real_lines, alt));
